@@ -105,7 +105,7 @@ class Builder:
             parts = []
             for k, src in enumerate(srcs):
                 pl = os.path.join(d, 'part%d.ll' % k) if len(srcs) > 1 else ll
-                cmd = CLANG_BASE + u.clang_extra + ['-D' + x for x in u.defines] + self.incs() + [src, '-o', pl]
+                cmd = CLANG_BASE + u.clang_extra + (['-Dmain=wencry_main'] if os.path.basename(src) == 'main.cpp' else []) + ['-D' + x for x in u.defines] + self.incs() + [src, '-o', pl]
                 r = sh(cmd)
                 if r.returncode != 0:
                     raise BrokenCheck('clang failed for %s:\n%s' % (src, r.stderr[-3000:]))
@@ -139,7 +139,7 @@ class Builder:
         for k, src in enumerate(srcs):
             po = o if len(srcs) == 1 else o[:-2] + '_p%d.o' % k
             cmd = ['g++', '-std=c++17', '-fno-access-control', '-w', '-DWENCRY_VERIF', '-DOPT_ON', '-c'] + flags + \
-                  ['-D' + x for x in u.defines] + ['-D' + x for x in extra_defs] + self.incs() + [src, '-o', po]
+                  (['-Dmain=wencry_main'] if os.path.basename(src) == 'main.cpp' else []) + [x for x in u.clang_extra if x.startswith('-I')] + ['-D' + x for x in u.defines] + ['-D' + x for x in extra_defs] + self.incs() + [src, '-o', po]
             r = sh(cmd)
             if r.returncode != 0:
                 raise BrokenCheck('g++ failed for %s:\n%s' % (src, r.stderr[-3000:]))
@@ -153,7 +153,7 @@ class Builder:
 
 # ----------------------------------------------------------------------------------------- obligations
 class Ob:
-    def __init__(self, name, harness, units, function='harness', defines=(), unwind=None, unwindset=(), envs=('env_heap.c',),
+    def __init__(self, name, harness, units, function='harness', defines=(), unwind=None, unwindset=(), envs=('env_heap.c', 'env_io.c'),
                  timeout=120, mem_gb=16, solver=None, replay='native', known_key=None, extra_c=(), note='', replay_envs=None,
                  cbmc_extra=(), expect_witness=True, replay_units=None):
         self.name, self.harness, self.units, self.function = name, harness, list(units), function
@@ -218,6 +218,7 @@ class Run:
         self.outside = []
         self.samples = []
         self.extra_cov = {}
+        self.tv_failed = None
 
     # ---- building blocks
     def add(self, ob):
@@ -388,7 +389,7 @@ class Run:
         return ob.replay_result
 
     # ---- translation validation
-    def tv(self, u, driver, extra_env=('env_heap.c', 'env_cxx.c', 'env_native_tv.c'), n_random=2000):
+    def tv(self, u, driver, extra_env=('env_heap.c', 'env_cxx.c', 'env_io.c', 'env_native_tv.c'), n_random=2000):
         """Compile generated C (prefix c_) natively, link with the g++ build of the real sources and the driver,
         run: the driver must print  TV-OK <n>  (bit-for-bit agreement on n inputs)."""
         c, m = self.b.translate(u, prefix='c_')
@@ -411,7 +412,11 @@ class Run:
         rc, out, err, wall, rss = run_limited([exe], 120, None, cwd=d)
         mm = re.search(r'TV-OK (\d+)', out)
         if rc != 0 or not mm:
-            raise BrokenCheck('translation validation FAILED for unit %s: %s' % (u.name, (out + err)[-1500:]))
+            # generated C and real build disagree: either the translator is wrong, or the code has undefined behaviour (e.g. an
+            # out-of-bounds read) that the two builds resolve differently. The obligations still run; if they find nothing the check is BROKEN.
+            self.tv_failed = 'translation validation FAILED for unit %s: %s' % (u.name, (out + err)[-600:])
+            self.tv_results.append(dict(unit=u.name, inputs_agreeing=0, mismatch=(out + err)[-300:]))
+            return 0
         self.tv_results.append(dict(unit=u.name, inputs_agreeing=int(mm.group(1)), wall_s=round(wall, 2)))
         return int(mm.group(1))
 
@@ -480,6 +485,9 @@ class Run:
             rc = 1
         if unconfirmed and rc == 0:
             rc = 3
+        if self.tv_failed and rc == 0:
+            print('BROKEN check %s: %s (and no obligation failed)' % (self.prop, self.tv_failed))
+            rc = 2
         print('%s %s: %d/%d obligations discharged, %d violation(s), %d known, %d undecided, %.1fs' % (
             self.prop, self.tier, discharged, len(self.obs), len(violations), len(known_hits), len(undecided), wall))
         return rc
